@@ -105,7 +105,7 @@ def make_lines(cases):
             src, sx = c["src"], c["sx"]          # stored case (corpus / replay)
         else:
             rng = vlib.SplitMix64(c.get("rseed", 1))
-            src = gen_lua.render(c["ast"], c.get("style", 0), rng)
+            src = gen_lua.render(c["ast"], c.get("style", 0), rng, c.get("eol", "\n"))
             sx = gen_lua.serialize(c["ast"])
         c["_src"], c["_sx"] = src, sx
         args = ",".join(c.get("args") or []) or "-"
